@@ -1,6 +1,6 @@
-"""C13 (partial): R-NDET, R-GLOB, R-PURE, R-OPT, R-PASS, FRESH."""
+"""C13 (partial): R-NDET, R-GLOB, R-PURE, R-OPT, R-PASS, FRESH, OUT-NAME, DATA-TAG."""
 from nk import report
-from rules import state, passes
+from rules import state, passes, listing
 from . import common
 
 EXPLANATION = (
@@ -11,12 +11,12 @@ EXPLANATION = (
     '-dump_symbols, -dump_macros, write_list_file) control only reporting statements (nothing that reaches an image/symbol '
     'write or consumes input). R-PASS: no assembling state survives from pass 1 into pass 2. FRESH: the interactive asm '
     'command assembles into a fresh automatic AsmContext. OUT-NAME: the output file name is only opened, printed, compared or '
-    'deleted, never handed to a content writer. Not decided: byte equality of two outputs.')
+    'deleted, never handed to a content writer. DATA-TAG: every data directive writes its bytes in pass 2 (nothing relies on what pass 1 left in the image). Not decided: byte equality of two outputs.')
 
 
 def run(tier, t0):
     prog = common.program()
     cg = common.callgraph()
     results = [state.ndet(prog, cg, [common.ASM_MAIN, 'assemble_code']), state.glob(prog), state.pure(prog, cg),
-               state.opt(prog, cg), passes.rpass(prog, cg), state.fresh(prog), state.outname(prog)]
+               state.opt(prog, cg), passes.rpass(prog, cg), state.fresh(prog), state.outname(prog), listing.data_tag(prog)]
     return report.finish('C13', tier, results, EXPLANATION, [], common.TRUSTED, t0)
